@@ -174,7 +174,7 @@ func H_C03_chunks() {
 // H_C03_lists: fixed / variable length, typed / untyped, direct-length forms; type name literal or by
 // back-reference to an earlier list of the same stream.
 func H_C03_lists() {
-	n := vChoice("n", 7) // variable-length lists grow as they are read: lengths around the growth steps matter
+	n := vChoice("n", 8) // 0..7 (the direct-length forms end at 7); variable-length lists grow as they are read: lengths around the growth steps matter
 	xs := make([]int32, n)
 	var elems []byte
 	for i := range xs {
@@ -251,7 +251,7 @@ func H_C03_objects() {
 	defI := refClassDef("ZInner", []string{"n", "s"})
 	body := refCat(refInt(a), refStr("bb"), refLong(c))
 	var wire []byte
-	switch vChoice("layout", 5) {
+	switch vChoice("layout", 7) {
 	case 0:
 		wire = refCat(defT, []byte{0x60}, body)
 	case 1:
@@ -262,6 +262,21 @@ func H_C03_objects() {
 		wire = refCat(defI, defT, []byte{0x78 + 2, 0x60}, refInt(1), refStr("s"), []byte{0x61}, body)
 	case 4: // definition hoisted in front of a map value
 		wire = refCat(defT, []byte{'H'}, refStr("k"), []byte{0x60}, body, []byte{'Z'})
+	case 5, 6: // instances in the long 'O' form as values of struct-typed fields (by value and by pointer)
+		tm2, _ := vExtractAll(&ZOuter{P: &ZInner{}})
+		defO := refClassDef("ZOuter", []string{"a", "in", "p", "z"})
+		inst := func(n int32) []byte { return refCat([]byte{'O'}, refInt(0), refInt(n), refStr("s")) }
+		var w []byte
+		if vChoice("layout56", 2) == 0 {
+			w = refCat(defI, defO, []byte{0x61}, refInt(a), inst(7), inst(8), refLong(c))
+		} else {
+			w = refCat(defI, defO, []byte{'O'}, refInt(1), refInt(a), inst(7), []byte{'N'}, refLong(c))
+		}
+		got, err := ToObject(w, tm2)
+		vAssert("alt-decodes", err == nil)
+		g, ok := got.(*ZOuter)
+		vAssert("outer", ok && g.A == a && g.Z == c && g.In.N == 7 && g.In.S == "s")
+		return
 	}
 	got, err := ToObject(wire, tm)
 	vAssert("alt-decodes", err == nil)
